@@ -49,6 +49,8 @@ pub const ALPHABET: &[&str] = &[
     "[General]x",
     "[general]",
     "[]",
+    "[Difficulty] // c",
+    "[Metadata]//x",
     "[[Metadata]]",
     "[Events]]",
     "[[General]",
